@@ -511,7 +511,7 @@ pub fn eval_session_check(check: &str, case: &Case, replies: &[String]) -> Optio
         // C20 oracle on one `lsp` reply
         ["lsp-wellformed", i] => {
             let i: usize = i.parse().unwrap();
-            let arg = if case.ops[i].starts_with("lspu") { 2 } else { 1 };
+            let arg = if case.ops[i].starts_with("lspu") || case.ops[i].starts_with("lspo") { 2 } else { 1 };
             let doc = case.ops[i].split(' ').nth(arg).and_then(crate::imp::unhex).unwrap_or_default();
             lsp_wellformed(&doc, &replies[i])
         }
